@@ -263,9 +263,16 @@ type gCfg [3]gPipe
 
 var gPids = []pipeline.ID{pipeline.NewID(pipeline.SignalTraces), pipeline.NewIDWithName(pipeline.SignalTraces, "b"), pipeline.NewID(pipeline.SignalLogs)}
 
+var gLongChains bool
+
 func gOptions(withE2, expOrder bool) []gPipe {
 	out := []gPipe{{}}
-	procs := [][]string{nil, {"p1"}, {"p1", "p2"}, {"p2", "p1"}}
+	// processor lists: none, one, two in both orders, three (a chain has a first, a middle and a last link) and - C09's
+	// data-flow oracle only - three in a second order and four
+	procs := [][]string{nil, {"p1"}, {"p1", "p2"}, {"p2", "p1"}, {"p1", "p2", "p3"}}
+	if gLongChains {
+		procs = append(procs, []string{"p3", "p1", "p2"}, []string{"p1", "p2", "p3", "p4"})
+	}
 	for _, r := range [][2]bool{{true, false}, {false, true}, {true, true}} {
 		for e := 1; e < 8; e++ {
 			if !withE2 && e&2 != 0 {
@@ -302,12 +309,13 @@ func gBuild(cfg gCfg, mode string) (*Graph, error) {
 		failStart: map[string]bool{}, failStop: map[string]bool{}, statuses: map[string][]componentstatus.Status{}}
 	rf, pf, ef, cf := gFactories()
 	one := map[component.ID]component.Config{}
-	for _, n := range []string{"r1", "e1", "e2", "p1", "p2"} {
+	for _, n := range []string{"r1", "e1", "e2", "p1", "p2", "p3", "p4"} {
 		one[gID(n)] = &struct{}{}
 	}
 	for pi := range cfg {
-		one[gProcID("C10", pi, "p1")] = &struct{}{}
-		one[gProcID("C10", pi, "p2")] = &struct{}{}
+		for _, n := range []string{"p1", "p2", "p3", "p4"} {
+			one[gProcID("C10", pi, n)] = &struct{}{}
+		}
 	}
 	pc := pipelines.Config{}
 	for i, p := range cfg {
@@ -742,6 +750,7 @@ func TestVerif(t *testing.T) {
 		}
 		return
 	}
+	gLongChains = prop == "C09"
 	opts := gOptions(ctx.Param("e2", 0) == 1, ctx.Param("exp_order", 0) == 1)
 	ctx.R.Extra["pipeline_options"] = len(opts)
 	var n int64
